@@ -12,7 +12,16 @@ RANGE_NOTE = ("Trusted: Lean kernel; the hand-written model of plugins/range (pl
 DISP_NOTE = ("Trusted: Lean kernel; the hand-written model of server/handle.go (and plugins/plugin.go), tied to the code by differential conformance through the server "
              "capture hook on generated and mutated datagrams; the DHCP codec and reply constructors of insomniacslk/dhcp are mirrored, not verified; sockets and the link-level send are not modelled.")
 
+PFX_NOTE = ("Trusted: Lean kernel; the hand-written model of plugins/prefix/plugin.go over the IPv6 allocator model, tied to the code by differential conformance on generated message "
+            "histories (through the wire, so that length-0 and length>128 hints arrive as the library delivers them); the clock is a parameter; bitset and DHCPv6 codec not verified.")
+
 META = {
+    "C08": dict(
+        text="Lean invariant proof by induction over every message history: the history monitor (in pool, aligned, size, lifetimes, disjoint across clients, one IA_PD per IA_PD) never fails on the model, for every well-formed pool, every hint shape and every allocator policy; the same monitor judges the implementation's replies while the model is stepped alongside.",
+        design_ref="DESIGN.md §4 C08", technique="Lean 4 invariant proof over all message histories + conformance against the real prefix plugin", note=PFX_NOTE),
+    "C09": dict(
+        text="Same invariant: a prefix once delegated is returned to an exact renewal and to a hint-less IA_PD with a lifetime not shorter than what remained, every delegated prefix is remembered, retransmissions allocate nothing; other clients' leases are untouched.",
+        design_ref="DESIGN.md §4 C09", technique="Lean 4 invariant proof over all message histories + conformance against the real prefix plugin", note=PFX_NOTE),
     "C11": dict(
         text="Lean theorem over the dispatch model for every parse result, listener configuration and chain of field-preserving handlers: whatever is sent answers a BOOTREQUEST DISCOVER/REQUEST, is a BOOTREPLY echoing xid/htype/chaddr/flags/giaddr/options 82 and 61, OFFER for DISCOVER and ACK/NAK for REQUEST; nothing else is ever answered (for arbitrary handlers).",
         design_ref="DESIGN.md §4 C11", technique="Lean 4 theorem (decision logic + fold invariant over any handler chain) + conformance through the server capture hook", note=DISP_NOTE),
@@ -50,4 +59,4 @@ META = {
 }
 NOT_YET = {}
 # properties whose check is complete and registered
-ENABLED = {"C20", "C02", "C03", "C04", "C05", "C06", "C07", "C11", "C12", "C13", "C15"}
+ENABLED = {"C20", "C02", "C03", "C04", "C05", "C06", "C07", "C11", "C12", "C13", "C15", "C08", "C09"}
